@@ -123,6 +123,46 @@ def case_singlet(log, method, order, kind="general", max_order_extra=0):
     log.path_stats(pm)
 
 
+def case_truncated_formula(log, order):
+    """eko_truncated against the truncated product U(a1) E0 U(a0)^-1 for *non-commuting* symbolic U_k and E0 (u_vec, r_vec and
+    lo_exact replaced by symbolic matrices; their own correctness is decided in C12 / C23): an exact polynomial identity."""
+    ns, sg, ei, as4, ad = kernel_modules()
+    log.encode(sg.eko_truncated)
+    rp = (MOD, "replay_singlet", {"method": "truncated", "order": order})
+    log.register_replay("singlet.truncated:%d" % order, rp, _sampler)
+
+    def run():
+        a0, a1 = SR.var("a0"), SR.var("a1")
+        u = [realnp.array([[1, 0], [0, 1]], dtype=object)]
+        for k in range(1, order):
+            u.append(realnp.array([[SR.var("u%d_%d%d" % (k, i, j)) for j in range(2)] for i in range(2)], dtype=object))
+        e0 = realnp.array([[SR.var("e0_%d%d" % (i, j)) for j in range(2)] for i in range(2)], dtype=object)
+        saved = (sg.u_vec, sg.r_vec, sg.lo_exact)
+        sg.u_vec = lambda r, o: realnp.array(u, dtype=object)
+        sg.r_vec = lambda *a: None
+        sg.lo_exact = lambda *a: e0.copy()
+        try:
+            E = sg.eko_truncated(None, a1, a0, None, (order, 0))
+        finally:
+            sg.u_vec, sg.r_vec, sg.lo_exact = saved
+        # U(a0)^-1 = sum W_k a0^k with W_0 = 1, W_k = - sum_{j=1..k} u_j W_{k-j}
+        W = [u[0]]
+        for k in range(1, order):
+            W.append(-sum(u[j] @ W[k - j] for j in range(1, k + 1)))
+        want = realnp.zeros((2, 2), dtype=object)
+        for i in range(order):
+            for j in range(order - i):
+                want = want + (u[i] @ e0 @ W[j]) * (a1**i * a0**j)
+        for i in range(2):
+            for j in range(2):
+                v = prove_zero(Cx.lift(E[i, j]) - Cx.lift(want[i, j]), "eko_truncated order %d == [U(a1) E0 U(a0)^-1] truncated at total degree %d, entry [%d,%d] (non-commuting U_k)" % (order, order - 1, i, j))
+                log.decide(v, key="singlet.truncated:%d" % order, replay=rp, sampler=_sampler)
+        log.twin("domain")
+
+    _r, pm = explore(run)
+    log.path_stats(pm)
+
+
 def case_decompose_commuting(log, method, order):
     """decompose-{exact,expanded} with diagonal gamma: held to O(a^n) only in the commuting limit."""
     ns, sg, ei, as4, ad = kernel_modules()
@@ -301,6 +341,8 @@ def main():
         chk.case("singlet.perturbative-exact.o2.max+2", case_singlet, method="perturbative-exact", order=2, max_order_extra=2)
     else:
         chk.case("singlet.truncated.o3.diag0", case_singlet, method="truncated", order=3, kind="diag0")
+    for o in (2, 3, 4):
+        chk.case("singlet.truncated.formula.o%d" % o, case_truncated_formula, order=o)
     # order 4 with diagonal gamma: cheap, and sensitive to anything that spoils the a^2, a^3 terms of the truncated kernel
     chk.case("singlet.truncated.o4.diag", case_singlet, method="truncated", order=4, kind="diag")
     chk.case("singlet.perturbative-exact.o4.diag", case_singlet, method="perturbative-exact", order=4, kind="diag")
